@@ -118,6 +118,16 @@ GENERIC = [
 ]
 
 
+# plain wrappers of the public API (inverse/inv.py:23-40, logdet/logdet.py:29-50, eig/eigs.py:44-73): no rule selection
+# of their own, they forward to a dispatched function
+WRAPPER_CALLS = [
+    ("solve", "inv", [ANYOP], [P(rep("Auto", "CG", "GMRES", "LU", "Cholesky"))]),
+    ("logdet", "slogdet", [ANYOP], [K(rep("Auto", "Cholesky", "LU", "Lanczos", "Arnoldi")), K(rep("Auto", "Exact", "Hutch"))]),
+    ("eigmax", "eig", [ANYOP, rep("pyint")], [K(rep("strLM")), K(rep("Auto", "Eig", "Eigh", "Lanczos", "Arnoldi", "LOBPCG", "PowerIteration"))]),
+    ("eigmin", "eig", [ANYOP, rep("pyint")], [K(rep("strSM")), K(rep("Auto", "Eig", "Eigh", "Lanczos", "Arnoldi", "LOBPCG", "PowerIteration"))]),
+]
+
+
 def resolve_templates(T):
     """-> list of dict(caller, orig, callee, req=[[rep names]], opt=[[(kind, rep name)]]) over the universe of T;
     rules of the live table without an entry in CALLS make no dispatched call according to the hand model (listed in
@@ -161,10 +171,13 @@ def resolve_templates(T):
     for key in CALLS:
         if key not in live_keys:
             stale.append(key)
+    def setof0(spec):
+        return list(T["op_all"]) if spec == ANYOP else list(spec[1])
+    for (wname, callee, rq, op) in WRAPPER_CALLS:
+        out.append(dict(caller=wname, orig=0, callee=callee, req=[setof0(s) for s in rq],
+                        opt=[[(o[0], n) for n in setof0(o[1])] for o in op]))
     for (callee, rq, op) in GENERIC:
-        def setof(spec):
-            return list(T["op_all"]) if spec == ANYOP else list(spec[1])
-        out.append(dict(caller="*", orig=0, callee=callee, req=[setof(s) for s in rq], opt=[]))
+        out.append(dict(caller="*", orig=0, callee=callee, req=[setof0(s) for s in rq], opt=[]))
     return out, stale
 
 
@@ -325,6 +338,22 @@ def run(ctx, T, full):
         for a in ks:
             for b in ks:
                 work.append((fn, [a, b], []))
+    # the plain wrappers: their nested dispatch must instantiate the wrapper's template
+    import cola as _cola
+    wrapper_unexplained = 0
+    wt = {t["caller"]: t for t in tm if t["caller"] in U.WRAPPERS}
+    import numpy as _np
+    for kname in kinds_q:
+        A = reps[kname].obj
+        for wname, call in (("solve", lambda: _cola.solve(A, _np.ones(A.shape[0]))), ("solve", lambda: _cola.solve(A, _np.ones(A.shape[0]), reps["LU"].obj)),
+                            ("logdet", lambda: _cola.logdet(A)), ("logdet", lambda: _cola.logdet(A, reps["LU"].obj, reps["Exact"].obj)),
+                            ("eigmax", lambda: _cola.eigmax(A)), ("eigmin", lambda: _cola.eigmin(A, reps["Eig"].obj))):
+            log, e, msg = TC.run_traced(call, [], {}, limit)
+            ncalls += 1
+            top = [r for r in log if r.depth == 0 and r.fn in T["funcs"] and r.fn not in ("get_annotations", "transpose", "adjoint", "dot", "add", "mul")]
+            if top and not fits(wt[wname], top[0]):
+                wrapper_unexplained += 1
+                unexplained[(wname, "(plain wrapper)", top[0].fn, tuple(abstract_class(T, a) for a in top[0].args), tuple(sorted(top[0].kw)))] += 1
     skipped = 0
     for (fn, req, opt) in work:
         if time.time() - t0 > budget:
